@@ -245,6 +245,9 @@ def judge(op, ref, outcome, out_bytes, stray):
   if op["expect"] == "invalid-config":
     if not is_err:
       return ("documented-invalid-config-accepted:" + op["why"].split("=")[0], "%s accepted; argv=%s" % (op["why"], build_argv(op)))
+    if out_bytes is not None:
+      # "end with an error and no output file": a conversion rejected for its configuration has not produced its output
+      return ("output-file-after-rejected-config", "%s rejected, but %d bytes were left at %s; argv=%s" % (op["why"], len(out_bytes), op["out"], build_argv(op)))
     return None
   if ref[0] == "ok":
     if is_err:
@@ -468,6 +471,7 @@ def describe():
              "pipeline computed in its own pristine fork; the history is repeated in reversed order, and every 8th history in fresh interpreters "
              "under PYTHONHASHSEED 0, 1, 31337. distinct_nontrivial = distinct (input type, output type, filter list, configured modules, expectation, "
              "outcome) classes of executed commands."),
+    "fault_note": 'usage faults (unsupported types, unknown sub-commands, documented-invalid configuration values) and process restarts under other hash seeds; disk faults are not injected because the statement defines no outcome for them',
     "nontrivial_measure": "spec_class",
     "components": {"real": ["ttconv/tt.py end to end incl. argparse", "config.py and all module configurations", "all readers, filters, writers", "xml.etree, json, pathlib (stdlib)"],
                    "stub": ["file system: sim/simfs.py behind builtins.open and io.open", "stdout/stderr"],
